@@ -73,9 +73,9 @@ def mask_option(dump, name):
     return dump[:i] + key + '*' + dump[k + 1:]
 
 
-def evaluate(sch, words, cb_fail):
-    st = new_store(sch, 0)
-    p = RefParser(0, cb_fail=cb_fail)
+def evaluate(sch, words, cb_fail, ctxflags=0):
+    st = new_store(sch, ctxflags)
+    p = RefParser(ctxflags, cb_fail=cb_fail)
     res = p.parse(st, tokens_from_words(words))
     return res, st, p
 
@@ -88,19 +88,30 @@ def shard(sh):
     N = N % 100
     VBITS = {1: b'a', 3: b'l', 4: b's', 6: b's|x'}
     for mask in masks:
-        sch = variant(mask)
-        if bypath:
+        ctxflags = 0
+        if isinstance(mask, tuple):
+            # an explicit configuration: (reference schema, declared schema, registration lines, context flags)
+            sch, decl, reg, ctxflags = mask
+            drv.define_schema(decl.sid, decl.spec())
+            alpha = S.alphabet_for(sch)
+            batch = []
+        else:
+            sch = variant(mask)
+        if isinstance(mask, tuple):
+            pass
+        elif bypath:
             decl = variant(mask & ~sum(1 << b for b in VBITS))
             decl = Schema('G%d' % mask, decl.opts)
             reg = ['set_vf A %s 1' % enc(path) for bit, path in sorted(VBITS.items()) if mask >> bit & 1]
         else:
             decl, reg = sch, []
-        drv.define_schema(decl.sid, decl.spec())
-        alpha = S.alphabet_for(sch)
-        batch = []
+        if not isinstance(mask, tuple):
+            drv.define_schema(decl.sid, decl.spec())
+            alpha = S.alphabet_for(sch)
+            batch = []
 
         def flush():
-            cases = [Case(['init A %s 0' % decl.sid] + reg + ['cb_fail %d' % k, 'parse_buf A ' + enc(trace.text_of(words)), 'dump A 0']) for (words, k, _, _, _) in batch]
+            cases = [Case(['init A %s %d' % (decl.sid, ctxflags)] + reg + ['cb_fail %d' % k, 'parse_buf A ' + enc(trace.text_of(words)), 'dump A 0']) for (words, k, _, _, _) in batch]
             for (words, k, res, store, par), c, r in zip(batch, cases, drv.run(cases)):
                 st.evaluations += 1
                 st.transitions += len(res.events) + 1
@@ -138,18 +149,18 @@ def shard(sh):
                     if got != want:
                         st.violation('later-item-applied-or-earlier-lost:%s' % label, script, want, got)
                 if len(st.samples) < 1 and failed and len(res.events) >= 3:
-                    st.samples.append({'schema_callbacks': [SLOTS[j] for j in range(len(SLOTS)) if mask >> j & 1], 'text': trace.text_of(words),
+                    st.samples.append({'schema_callbacks': sch.spec() if isinstance(mask, tuple) else [SLOTS[j] for j in range(len(SLOTS)) if mask >> j & 1], 'text': trace.text_of(words),
                                        'failing_invocation': k, 'expected_log': exp, 'expected_rc': want_rc})
             del batch[:]
 
         for prefix in prefixes:
-            for node in trace.e1(sch, 0, alpha, N, prefix):
+            for node in trace.e1(sch, ctxflags, alpha, N, prefix):
                 words = node.words
-                res0, store0, par0 = evaluate(sch, words, 0)
+                res0, store0, par0 = evaluate(sch, words, 0, ctxflags)
                 K = par0.cb_seen
                 batch.append((words, 0, res0, store0, par0))
                 for k in range(1, K + 1):
-                    res, store, par = evaluate(sch, words, k)
+                    res, store, par = evaluate(sch, words, k, ctxflags)
                     batch.append((words, k, res, store, par))
                 if len(batch) >= 300:
                     flush()
@@ -252,6 +263,26 @@ def main():
         for ch in engine.chunks(frontier, 12):
             shards.append((masks, 100 + Nb, ch, dl))
     engine.phase(ck, 'E1 N=%d with validation callbacks registered by schema path (cfg_set_validate_func)' % Nb, shard, shards, subsets=len(vmasks))
+    # other option kinds with parse callbacks, a single section addressed by path, case-insensitive registration
+    from model import CFGF
+    K = lambda cbf, cbb, cbt, cbtl, cby, sid: Schema(sid, [Opt('float', 'f', '', 1.5, cbf), Opt('bool', 'b', '', False, cbb), Opt('str', 't', '', b'd', cbt),
+                                                          Opt('str', 'tl', 'L', [b'a'], cbtl), Opt('ptr', 'q', '', None, 'pf'),
+                                                          Opt('sec', 'g', '', sub=[Opt('int', 'y', '', 1, cby)], cbs='v' if cby and sid.endswith('g') else '')])
+    confs = []
+    confs.append((K('p', 'p', 'pv', 'pv', 'v', 'K1'), K('p', 'p', 'pv', 'pv', 'v', 'K1'), [], 0))
+    confs.append((K('pv', 'pv', 'p', 'p', 'pv', 'K2g'), K('pv', 'pv', 'p', 'p', 'pv', 'K2g'), [], 0))
+    confs.append((K('v', 'v', 'v', 'v', 'v', 'K3g'), K('', '', '', '', '', 'K3d'), ['set_vf A %s 1' % enc(x) for x in (b'f', b'b', b't', b'tl', b'g|y', b'g')], 0))
+    confs.append((K('v', '', 'v', '', 'v', 'K4'), K('', '', '', '', '', 'K4d'), ['set_vf A %s 1' % enc(x) for x in (b'F', b'T', b'G|Y')], CFGF['NOCASE']))
+    Nk = 4 if quick else 6
+    shards = []
+    for conf in confs:
+        alpha = S.alphabet_for(conf[0])
+        inner, frontier = trace.viable_prefixes(conf[0], conf[3], alpha, 2)
+        shards.append(([conf], 0, inner, dl))
+        for ch in engine.chunks(frontier, 6):
+            shards.append(([conf], Nk, ch, dl))
+    engine.phase(ck, 'E1 N=%d: float / bool / string / pointer parse callbacks, a single section addressed by path, registration under CFGF_NOCASE' % Nk,
+                 shard, shards, configurations=len(confs))
     ck.assumptions = ['validation calls: the log is compared after collapsing consecutive identical calls (same option, same count, same last value)',
                       'after a failing invocation the option of the item in which it happened is not compared']
     ck.finish('schema variant (subset of 7 callback slots) x E1 token sequence x index of the failing invocation; non-trivial = distinct (expected log, verdict)')
